@@ -160,6 +160,16 @@ Repr representable(const Model& m, bool v11, EncInfo& enc) {
             else if (!enc.can(c)) bad(std::string(what) + " character U+" + hexCp(c) + " is not in " + enc.name);
         }
     };
+    // A surrogate pair split between two events (e.g. the high half at the end of a characters() event and the low half at the start of a cdata()
+    // event) merges into a legal character in the model's text node, but no serializer can be expected to pair halves across events of
+    // different kinds: such a script counts as not representable (an error is an acceptable outcome).
+    for (auto& f : m.feed) if (f.k == F_CH || f.k == F_CD || f.k == F_IW) {
+        const XS& t = f.text;
+        for (size_t i = 0; i < t.size(); ++i) {
+            if (t[i] >= 0xD800 && t[i] <= 0xDBFF) { if (i + 1 < t.size() && t[i + 1] >= 0xDC00 && t[i + 1] <= 0xDFFF) { ++i; continue; } bad("a text event ends in (or contains) an unpaired high surrogate"); }
+            else if (t[i] >= 0xDC00 && t[i] <= 0xDFFF) bad("a text event starts with (or contains) an unpaired low surrogate");
+        }
+    }
     for (auto& n : m.exp) {
         if (n.k == N_SE) { name(n.qname); for (auto& a : n.attrs) { name(a.first); content(a.second.value, "attribute value"); } }
         else if (n.k == N_T) content(n.text, "text");
@@ -770,7 +780,10 @@ struct C04 : public Driver {
         Sig g = sigOf(s, pr, wantClasses); if (!g.any) return "";
         lastSig = g;
         if (suppress && suppress->count(g.str())) { res.count("pipeline-finding-already-shown-by-factory-product"); tr.ev("same-as-factory " + g.str()); return ""; }
-        std::string sig = g.cls + ":" + family + ":" + g.ver + (wantClasses ? ":" + g.pairs : "") + (g.extra.empty() ? "" : ":" + g.extra);
+        // the three FormatterToXMLUnicode instantiations (and the pipeline on top of them) share the code that decides what is an error:
+        // one signature for all of them keeps one root cause = one finding
+        std::string fam = family; if (g.cls.compare(0, 14, "error-expected") == 0 && (fam == "utf8" || fam == "utf16" || fam == "other" || fam == "pipeline")) fam = "unicode";
+        std::string sig = g.cls + ":" + fam + ":" + g.ver + (wantClasses ? ":" + g.pairs : "") + (g.extra.empty() ? "" : ":" + g.extra);
         tr.ev("violation " + sig);
         Json sub = Json::object(); Json cf = Json::array(); for (auto& c : involved) cf.push(c.raw); sub["configs"] = cf;
         std::string key = g.cls + "|" + sig;
